@@ -93,7 +93,7 @@ theorem C01_accept_iff (w : World) (o f : Nat) (a : Args) (m : Mock) (hm : w.moc
       subst this
       rw [hx] at hx'
       exact absurd (by rw [← Option.some.inj hx']; exact hhi) hhi'
-  | blocked e x r hfind hx hhi hord heq =>
+  | blocked e x r hfind hx hhi hord hrk0 heq =>
     rw [heq]
     constructor
     · intro hacc
@@ -184,7 +184,7 @@ theorem C01_reject (w : World) (o f : Nat) (a : Args) (m : Mock) (hm : w.mocks o
       · subst he; simp [hx]
       · simp only []
         rw [setExp_exps_other _ _ he]
-  | blocked e x r hfind hx hhi hord heq =>
+  | blocked e x r hfind hx hhi hord hrk0 heq =>
     rw [heq]
     refine ⟨?_, ?_, ?_, fun _ => rfl⟩
     · simp [List.filter_append, hlogf, htrf, rep, Ev.isReport, List.filter]
